@@ -4,10 +4,9 @@
    H   : HMAC-SHA256 under the BNG's secret, an arbitrary function argument
    e   : environment of a run (H, cookie lifetime, wall clock, subscriber-group matcher)
    variant = the repairs made during this work as flags: owner check (b12b708), id-0 guard (731c2cc), id
-   reservation (46cb3dc), guarded index removal (9893c59), HA restore refuses an unusable id (proposed,
-   fixes/C04_hasync_id_in_use.patch).  Repaired = all of them; the main theorems are about it (stated for every
-   variant that has the flags a theorem needs).  NoHACheck = /repo HEAD until that patch is applied.  Unreserved /
-   ReserveOnly / GuardOnly / Defective lack earlier repairs and only appear in the `_refuted` theorems, which record
+   reservation (46cb3dc), guarded index removal (9893c59), HA restore refuses an unusable id (9d39845).
+   Repaired = all of them = /repo HEAD; the main theorems are about it (stated for every variant that has the flags
+   a theorem needs).  NoHACheck / Unreserved / ReserveOnly / GuardOnly / Defective lack some repairs and only appear in the `_refuted` theorems, which record
    what each fix removed.
    reserving v = id-0 guard, reservation and HA check present; owning v = reserving v and owner check present.
    alive s x = x is in sidIndex or sessions, or has been built by a handlePADR that has not indexed it yet. *)
@@ -269,9 +268,9 @@ Theorem C04_hasync_accepted : forall v e s sid t a, v_ha_check v = true -> 0 < s
 Proof. exact hasync_accepted. Qed.
 Print Assumptions C04_hasync_accepted.
 
-(* /repo HEAD before fixes/C04_hasync_id_in_use.patch: the peer's id 1 is installed over the live local session
+(* before 9d39845: the peer's id 1 is installed over the live local session
    with id 1: two sessions alive in c.sessions carry id 1, and the local one is no longer reached by its own
-   frames.  Known finding ha-restore-overwrites-live-session-id; replayed on the real code (harness op H). *)
+   frames.  Replayed on the real code of that time (harness op H); fixed in 9d39845. *)
 Theorem C04_hasync_refuted : exists e ops s outs xA xB,
   run NoHACheck e st0 ops = Some (s, outs) /\
   by_tup s !! tA = Some xA /\ by_tup s !! tB = Some xB /\ xA <> xB /\ s_sid xA = 1 /\ s_sid xB = 1 /\
